@@ -76,6 +76,7 @@ func (C03) Gen(r *simrt.RNG, tier string) core.Case {
 	cfg := world.SwarmCfg(r)
 	cfg.Ifaces = false
 	cfg.RepeatPos = r.Chance(1, 5) // func(a, b T): two parameters, one key
+	cfg.Arrays = r.Chance(1, 6)
 	w := world.GenExact(r, cfg)
 	// a parameter declared by embedding its type, supplied under the type's name
 	if t := &w.Parties[0]; (t.InForm == world.FormStruct || t.InForm == world.FormPtrStruct) && r.Chance(1, 8) {
